@@ -17,7 +17,12 @@
              the model netlist reproduces Lcapy's A and Z, a left inverse certifies well-posedness, and for every probe
              the hand model's netlist (kill + test source / short) is solved by a witness whose port reading equals what
              Lcapy returned (Voc, Isc, impedance, admittance, thevenin().Voc/.Z, norton().Isc/.Y, transfer);
-             one-port trees: th / no of the tree model vs .Voc/.Z/.Isc/.Y/.thevenin()/.norton()
+             one-port trees: th / no of the tree model vs .Voc/.Z/.Isc/.Y/.thevenin()/.norton() - s-domain / ivp / dc trees over Qc,
+             ac trees (Vac/Iac of one angular frequency + reactive leaves) over Q(i) with every leaf taken at s = j omega,
+             dc trees with reactive leaves (C open, L short) for the s = 0 branch
+             props/C04evalmodel.v + C04eval.v + generated C04evalGen.v (tools/tr_thevenin.py): the if/elif chain of
+             OnePort.thevenin()/norton() as a table; thevenin_eval_point_ok / norton_eval_point_ok (immittance at j omega for
+             ac, 0 for dc, as is otherwise), *_source_sel_ok, *_form_ok (Ser(Z1, V1) / Par(Y1, I1) is the Thevenin / Norton line)
   search     independent oracles on Lcapy's own outputs: original+load vs returned model+load solved by Lcapy,
              (u, j) on the Thevenin and Norton lines, Voc = Isc Zth, Zth Yth = 1, same Zth/Voc whichever terminal
              (or other node) is grounded, exact load-line intersection with the Coq-validated model values
@@ -35,6 +40,7 @@ sys.path.insert(0, os.path.dirname(os.path.dirname(os.path.abspath(__file__))))
 from vlib import core, netgen
 sys.path.insert(0, os.path.join(core.VERIF, 'tools'))
 import tr_stamps as TS
+import tr_thevenin as TT
 
 PID = 'C04'
 MANIFEST = {
@@ -47,9 +53,15 @@ MANIFEST = {
             'that do not refer to ground the relation is the same whichever node is the reference (ground_indep).  The hand model of the probes '
             '(kill, apply_test_current/voltage_source incl. the removal of sources across the input, Isc+Vshort_, impedance, admittance, transfer) is proved to read these quantities when initial '
             'conditions are killed and refuted when they are kept.  Series/parallel one-port trees of any shape: th/no compute the Thevenin/Norton '
-            'pair and the terminal relation is that line.  The model is tied to the working tree on every run by evaluating it inside Coq on the '
-            'circuits the real code analysed.',
-    'note': 'Trusted: Coq kernel/vm_compute; tools/tr_stamps.py; spec coq/theory/Circuit.v; hand models props/C04model.v (probes; a killed V source is a 0 V '
+            'pair and the terminal relation is that line.  The branch structure of OnePort.thevenin()/norton() is translated (fail-closed) into a '
+            'table and proved to evaluate the immittance at s = j omega for a single-frequency ac source, at s = 0 for a non-zero dc source and to '
+            'keep the Laplace-domain immittance otherwise, to keep the matching source component, and to return a network whose terminal relation '
+            'is the Thevenin / Norton line (thevenin_eval_point_ok, norton_eval_point_ok, *_source_sel_ok, *_form_ok).  The model is tied to the '
+            'working tree on every run by evaluating it inside Coq on the circuits the real code analysed: netlists (dc, transient, ivp, ac) and '
+            'one-port trees (s-domain, ivp, dc with and without reactive elements, ac with Vac/Iac sources of one rational angular frequency, '
+            'quarter-turn phases and reactive elements, compared over the Gaussian rationals with the tree model taken at s = j omega).',
+    'note': 'Trusted: Coq kernel/vm_compute; tools/tr_stamps.py; tools/tr_thevenin.py (the signal-kind predicates is_ac / is_dc / is_superposition '
+            'and Expr.subs / Superposition.select themselves are oracles: their effect is checked per generated one-port by the correspondence); spec coq/theory/Circuit.v; hand models props/C04model.v (probes; a killed V source is a 0 V '
             'source instead of a wire; _add_ground = index -1, props/C04ground.v; apply_test_voltage_source removes the independent V sources across '
             'the input, m_remove_vs) validated by correspondence; the checkers are field-generic and run over Qc (dc, transient, ivp, resistive) and over '
             'the Gaussian rationals LT.QcI (ac: one angular frequency, phasors, immittances at s = j omega); witnesses and the left-inverse certificate are '
@@ -283,6 +295,8 @@ def gen_tree(rng, profile, depth=0, omega=None):
         r = rng.random()
         if profile == 'dc':
             ks = ['R', 'R', 'R', 'V', 'I']
+        elif profile == 'dcx':
+            ks = ['R', 'R', 'C', 'L', 'V', 'I']
         elif profile == 'ac':
             ks = ['R', 'R', 'C', 'L', 'C', 'L', 'V', 'I']
         else:
@@ -297,7 +311,7 @@ def gen_tree(rng, profile, depth=0, omega=None):
             if profile == 'ivp' and rng.random() < 0.5:
                 ic = str(netgen.val(rng, -4, 4))
             return [k, str(netgen.val(rng)), ic]
-        return [k, 'dc' if profile == 'dc' else 'step', str(netgen.val(rng, -5, 5) or Fraction(3))]
+        return [k, 'dc' if profile in ('dc', 'dcx') else 'step', str(netgen.val(rng, -5, 5) or Fraction(3))]
     n = rng.randint(2, 3)
     return [rng.choice(['ser', 'par']), [gen_tree(rng, profile, depth + 1, omega) for _ in range(n)]]
 
@@ -574,6 +588,32 @@ def gen_ac_trees(tier):
     return out
 
 
+def gen_dcx_trees(tier):
+    """dc one-ports WITH reactive elements (own random stream): thevenin()/norton() take the immittance at s = 0"""
+    rng = random.Random(core.seed() * 6007 + 405)
+    n = int(os.environ.get('VERIF_NDCXTREES', 8 if tier == 'quick' else 60))
+    out = []
+    k = tries = 0
+    while k < n and tries < 60 * n:
+        tries += 1
+        t = gen_tree(rng, 'dcx')
+        if t[0] not in ('ser', 'par') or not tree_valid(t):
+            continue
+        if not (1 <= tree_count(t, ('V', 'I')) <= 2 and 1 <= tree_count(t, ('C', 'L')) <= 2):
+            continue
+        th, no = tree_eval(t, Fraction(1), True)
+        if th is None and no is None:
+            continue            # open / short at dc: nothing to compare
+        lines = []
+        tree_lines(t, '1', '0', {}, lines)
+        s0 = '%d/%d' % (rng.randint(1, 9), rng.choice([1, 2, 3]))
+        ld = gen_load(rng, 'dc', s0, force=rng.choice(['R', 'VR', 'RL']))
+        out.append({'mode': 'oneport', 'tree': t, 'netlist': lines, 'profile': 'dc', 's0': s0, 'tags': ['oneport', 'dc', 'dc-reactive'],
+                    'load': ld['lines'], 'load_cur': ld['cur'], 'loadline': {'kind': ld['kind'], 'E': ld['E'], 'Zl': ld['Zl']}})
+        k += 1
+    return out
+
+
 def gen_cases(rng, tier):
     n_net = int(os.environ.get('VERIF_NCASES', 72 if tier == 'quick' else 800))
     n_tree = int(os.environ.get('VERIF_NTREES', 28 if tier == 'quick' else 300))
@@ -643,6 +683,7 @@ def gen_cases(rng, tier):
                       'load': ld['lines'], 'load_cur': ld['cur'], 'loadline': {'kind': ld['kind'], 'E': ld['E'], 'Zl': ld['Zl']}})
         k += 1
     cases += gen_ac_trees(tier)
+    cases += gen_dcx_trees(tier)
     return cases
 
 
@@ -949,17 +990,33 @@ def build_tree_items(ci, case, wr, res):
         items.append(dict(label='%d/model_pair' % ci, probe='model_pair', role='main', defn=defn,
                           expr='g_th_fst QcIF %s %s && g_th_snd QcIF %s %s' % (name, q(th[0], fld), name, q(th[1], fld))))
 
-    def add(probe, fn, v):
+    def add(probe, fn, v, name=name, defn=defn):
         items.append(dict(label='%d/%s' % (ci, probe), probe=probe, role='main', defn=defn, expr='%s %s %s' % (pfx % fn[2:], name, q(v, fld))))
+    dcx = dc and tree_count(t, ('C', 'L')) > 0
+    if dcx:
+        # .Z / .Y of the tree are Laplace-domain immittances (reported at s0); the dc model (C open, L short) is what
+        # thevenin() / norton() must return (immittance at s = 0) and what Voc / Isc are
+        name_s = name + '_s'
+        defn_s = 'Definition %s : tree QcF := %s.' % (name_s, tree_coq(t, s0, False))
+        sth, sno = tree_eval(t, s0, False)
+        for nm, fn, ok in (('Z', 'c_th_snd', sth is not None), ('Y', 'c_no_snd', sno is not None)):
+            v = fr(api.get(nm))
+            if ok and v is not None:
+                add(nm, fn, v, name_s, defn_s)
+        # sources that cancel: thevenin() / norton() return the passive network as it is (a Laplace-domain immittance)
+        if th is not None and th[0] == 0 and sth is not None and fr(api.get('thZ')) is not None:
+            add('thZ', 'c_th_snd', fr(api['thZ']), name_s, defn_s)
+        if no is not None and no[0] == 0 and sno is not None and fr(api.get('noY')) is not None:
+            add('noY', 'c_no_snd', fr(api['noY']), name_s, defn_s)
     if th is not None:
         for nm, fn, sc in (('Voc', 'c_th_fst', scale), ('thVoc', 'c_th_fst', scale), ('Z', 'c_th_snd', 1), ('thZ', 'c_th_snd', 1)):
             v = fr(api.get(nm))
-            if v is not None:
+            if v is not None and not (dcx and (nm == 'Z' or (nm == 'thZ' and th[0] == 0))):
                 add(nm, fn, v * sc)
     if no is not None:
         for nm, fn, sc in (('Isc', 'c_no_fst', scale), ('noIsc', 'c_no_fst', scale), ('Y', 'c_no_snd', 1), ('noY', 'c_no_snd', 1)):
             v = fr(api.get(nm))
-            if v is not None:
+            if v is not None and not (dcx and (nm == 'Y' or (nm == 'noY' and no[0] == 0))):
                 add(nm, fn, v * sc)
     return items, info
 
@@ -1079,6 +1136,7 @@ def run(tier='quick', replay=None):
     try:
         res.trusted = ['Coq 8.16.1 kernel + vm_compute',
                        'translator tools/tr_stamps.py (sha256 %s)' % core.sha256_file(os.path.join(core.VERIF, 'tools', 'tr_stamps.py'))[:16],
+                       'translator tools/tr_thevenin.py (sha256 %s)' % core.sha256_file(os.path.join(core.VERIF, 'tools', 'tr_thevenin.py'))[:16],
                        'specification coq/theory/Circuit.v (physical semantics of each component kind)',
                        'hand models coq/props/C04model.v (probes, returned models), coq/props/C01model.v, coq/theory/MNA.v (validated by correspondence)',
                        'harness: exact rational witnesses / inverse certificate (checked in Coq), textbook load lines, netlist text of generated cases',
@@ -1102,6 +1160,31 @@ def run(tier='quick', replay=None):
             res.failed_obl.append(('translate', 'lcapy/mnacpts.py', str(e)))
             res.obligations += 1
             tr = None
+        # the branch structure of OnePort.thevenin() / norton() (evaluation point of the immittance per signal kind)
+        eval_files = []
+        try:
+            texts['C04evalGen.v'] = TT.translate(os.path.join(core.REPO, 'lcapy', 'oneport.py'))
+            for f in ('C04evalmodel.v', 'C04eval.v'):
+                texts[f] = open(os.path.join(core.VERIF, 'coq', 'props', f)).read()
+            eval_files = ['C04evalmodel.v', 'C04evalGen.v', 'C04eval.v']
+            for f in eval_files:
+                w.write(f, texts[f])
+            bad = core.gate_text('C04eval', '\n'.join(texts[f] for f in eval_files))
+            if bad:
+                res.failed_obl.append(('gate', 'C04eval', '; '.join(bad)))
+                res.obligations += 1
+        except TT.Untranslatable as e:
+            res.failed_obl.append(('translate_oneport', 'lcapy/oneport.py', str(e)))
+            res.obligations += 1
+        eval_box = {}
+
+        def prove_eval():
+            for f in eval_files:
+                eval_box.update(core.coqc_many(w.dir, [f], timeout=600))
+                if not eval_box[f][0]:
+                    break
+        th_eval = threading.Thread(target=prove_eval)
+        th_eval.start()
         # ---- real code, in the background ----
         wres_box = {}
         for c_ in cases:
@@ -1243,6 +1326,7 @@ def run(tier='quick', replay=None):
                     failing.update(fl)
                     evaluated.update(it['gi'] for it in shards[si])
             res.extra['traces_validated_against_impl'] = len(evaluated)
+        th_eval.join()
         if th_rest is not None:
             th_rest.join()
             allr.update(rest_box)
@@ -1250,6 +1334,12 @@ def run(tier='quick', replay=None):
                 if f not in allr:
                     res.failed_obl.append((f[:-2], f, 'not checked: a prerequisite file failed'))
                     res.obligations += 1
+        allr.update(eval_box)
+        for f in eval_files:
+            if f not in allr:
+                res.failed_obl.append((f[:-2], f, 'not checked: a prerequisite file failed'))
+                res.obligations += 1
+        if allr:
             res.coq_results(w.dir, allr, {f: texts[f] for f in allr})
             res.extra['coq_seconds'] = {f: round(r[2], 1) for f, r in allr.items()}
         log('props done')
@@ -1376,7 +1466,9 @@ def run(tier='quick', replay=None):
         res.rule = ('net: vlib/netgen random connected netlists (profiles dc / s / ivp; dependent sources, transformer, gyrator, mutual inductance, '
                     'two-ports, wires, ammeters; every 4th circuit floating = ground renamed) x random node pair (port) x random load '
                     '{R, RC, RL, RLC, source+R} x optional second port for transfer, plus a fixed corpus; oneport: random series/parallel trees '
-                    '(depth <= 3) of R, C, L, V, I leaves (initial conditions in profile ivp); non-trivial = at least one probe returned a value '
+                    '(depth <= 3) of R, C, L, V, I leaves (initial conditions in profile ivp), ac trees (1-2 Vac/Iac sources of one rational angular '
+                    'frequency with quarter-turn phases, 1-3 reactive leaves, passive R/RC/RL/RLC load, plus a fixed corpus), dc trees with 1-2 reactive '
+                    'leaves; non-trivial = at least one probe returned a value '
                     'and a Coq comparison was generated; distinct = distinct (netlist/tree, port, load)')
         for name, f, msg in res.failed_obl:
             violations.append({'key': 'obligation:' + name, 'what': 'Coq obligation %s in %s no longer checks' % (name, f),
